@@ -7,13 +7,32 @@ TB = ("Trusted: Verus 0.2026.09.13 + Z3; tools/extract.py normalisation rules N1
       "Identity/Codec/Runtime/BroadcastHandler); hoisted iterator expressions (external_body helpers h1..h7); termination of iterator loops. "
       "Every remaining assumption is listed per run in the evidence file (trusted_base, assumption_scan).")
 CLAIMS = {
- 'C01': ("Verus discharges, for all inputs, the precedence table (Member::can_change/change_state == rank order over the full u16 range), the whole-view join "
-         "postcondition of Members::apply_existing_if / apply (apply_one spec: conflict winner supersedes, Lost/FailedCondition leave the list untouched), and registration of unknown addresses.",
-         "Order/multiplicity independence lemma (L-C01) and apply_many routing are added as the foca unit and lemma unit land; until then this check decides the per-call join only."),
- 'C08': ("Verus: num_active == number of active records is part of Members::wf and preserved by every Members operation; the ApplySummary returned mirrors exactly what happened to the record (summary_mirrors).", ""),
- 'C09': ("Verus: address uniqueness (Members::wf) preserved by every Members operation; lookup is by address; identity replaced only when the stored identity does not win the conflict (apply_one).", ""),
- 'C11': ("Verus: remove_if_down removes only a record with exactly that identity and only if Down; Down never changes by change_state (rank).", ""),
- 'C14': ("Verus: Members::next returns the first active record at/after the cursor else the first before it, reshuffles exactly when the cursor ran off the end, forces a reshuffle after a wrap.", "the 2n-1 window lemma is in the lemma unit (pending)"),
+ 'C01': ("Verus discharges, for all inputs and every list length: the precedence table (Member::can_change/change_state == the rank order over the whole u16 range), the whole-view join postcondition of Members::apply_existing_if / apply (apply_one: conflict winner supersedes whatever the states, Lost/FailedCondition leave the list untouched, Down final), registration of unknown addresses, and the routing of apply_update/apply_many (own identity never applied, own address only as Down).",
+         "The per-call join is proved for all inputs; the order/multiplicity-independence consequence is proved as lemmas over the same spec function (lemmas unit) where present."),
+ 'C06': ("Verus discharges every side obligation (overflow/underflow, index and slice bounds, unwrap/expect, division by zero, callee preconditions incl. the bytes stand-ins' space requirements) and every debug assertion of every non-test function of lib.rs, member.rs, probe.rs, broadcast.rs, payload.rs and of the Runtime blanket impl, under the representation invariant Foca::inv which is proved established by the constructor and preserved by every public method.",
+         "Not covered: allocation failure, panics inside user-supplied traits, termination of iterator loops, Config::new_lan/new_wan floating point (Kani harness where registered), the bodies of bytes/rand/alloc beyond the prelude specs; the 2^64 forwarded-ack counter bound is a stated precondition (A-count)."),
+ 'C07': ("Verus: send_message's single datagram satisfies the grammar wire_ok (header of (identity, incarnation, dst, message); 16-bit count + exactly that many whole members iff the kind piggybacks and >2 bytes are left; length-prefixed custom items only for kinds that carry them; never above max_packet_size), a Feed lists pairwise distinct active records other than the receiver (feed_ok), Broadcasts::fill/fill_with_len_prefix write only whole items that fit (fill_effect), the kind predicates equal their tables, and handle_custom_broadcasts accepts exactly parse_items.",
+         "Under A-codec (stateless wire format). The send-grammar-is-accepted round trip lemma is not claimed unless listed in the evidence."),
+ 'C08': ("Verus: num_active == number of active records (Members::wf) preserved by every operation; ApplySummary mirrors what happened to the record (summary_mirrors); handle_apply_summary emits exactly Rename/MemberUp/MemberDown per the summary (summary_effects); Active only from Disconnected with >=1 active member, Idle only from Connected with none, Defunct/Rejoin only through own_death (rejoined/went_undead), all as exact trace postconditions; Connected ==> num_active>0 (Foca::inv) at every public call boundary.",
+         "AccumulatingRuntime (three FIFO queues) is not under contract: the per-kind order claim for it is not decided here."),
+ 'C09': ("Verus: address uniqueness and 'own address only as Down' (own_down) are part of Foca::inv_core, preserved by every function; lookup is by address; identity replaced only when the stored identity does not win (apply_one) and reported as Rename; datagrams from own identity/address rejected before any change; payload of an inactive/superseded sender discarded (apply_update's boolean, handle_data inactive branch).", ""),
+ 'C10': ("Verus: handle_self_update's exact case table (Alive: nothing; Suspect: incarnation' = max+1 iff suspicion >= own, unchanged otherwise, rejoin-or-Defunct at MAX; Down: rejoin-or-Defunct), attempt_rejoin true iff renew() differs from and wins against the old identity, change_identity/reset zero the incarnation, bump the epoch and enqueue Down(previous); send_message's header carries (identity, incarnation) at send time; updates are enqueued verbatim (enqueued .. mem_bytes(update)).", ""),
+ 'C11': ("Verus: handle_timer(ChangeSuspectToDown) satisfies the complete case table t_timeout (stale token / unknown / superseded / other incarnation / already Down: no effect at all; otherwise Down at the suspicion's incarnation, summary effects, TurnUndead iff configured and applied), RemoveDown removes exactly that identity only if Down and does nothing else; Down never changes by change_state; RemoveDown scheduled exactly when a successful application leaves the member inactive.",
+         "'No effect' for a cancelled timeout is stated for settled instances (Disconnected ==> no active members), which is what every epoch that can own such a timer satisfies."),
+ 'C12': ("Verus: Probe::* exact postconditions (evidence only from the probed member / an asked helper with the current number, counted once), handle_timer(SendIndirectProbe) t_indirect (requests only while probing, no evidence, target active; to <= num_indirect_probes distinct active members, never the target; each recorded), probe_random_member (Suspect + exactly one timeout iff the round failed and the member is active; one Ping to the member Members::next yields), and the relay table reply_ok in handle_data.", ""),
+ 'C13': ("Verus: token bumped exactly in reset/become_disconnected/become_undead (struct-update frames), become_connected arms exactly arm_effects, every recurring handler re-arms exactly once before acting (t_periodic, probe_random_member), stale-token and not-active timers change nothing (whole-state equality), set_config refuses timing changes/enabling with no change.",
+         "The global 'exactly one outstanding timer' accounting lemma over histories is not claimed beyond these per-call clauses."),
+ 'C14': ("Verus: Members::next returns the first active record at/after the cursor else the first before it, reshuffles (any sequence of swaps) exactly when the cursor ran off the end, forces a reshuffle after a wrap, never returns a Down record; probe_random_member pings exactly that member, which by own_down is never the instance itself.",
+         "the 2n-1 window consequence is a lemma over next's spec function (lemmas unit) where present in the evidence."),
+ 'C15': ("Verus: add_or_replace == enqueued (everything the key invalidates removed, one new entry at max_tx; Addr keys invalidate iff same address), fill == fill_effect (taken entries decremented and dropped at zero, others untouched, no omission of anything that still fits, Entry order precedence), only successful applications with do_broadcast enqueue, only piggybacking non-Feed kinds consume the update backlog.",
+         "assumed BinaryHeap specs (multiset view, pop returns a maximum)."),
+ 'C16': ("Verus: add_broadcast (rejections without change; accepted key enqueued with the bytes verbatim), handle_custom_broadcasts (handler sees exactly parse_items(data), once each, in order, with the sender; anything else refused), fill_with_len_prefix framing, attachment gate (carries_custom && should_add), broadcast() (nothing when empty; only Broadcast datagrams to <= num_indirect_probes distinct active members; update backlog untouched).", ""),
+ 'C17': ("Verus: every rejection path of handle_data (oversize, header/member decode error, own identity/address, framing, not addressed), stale/not-active timers, reuse_down_identity(NotUndead), change_identity(SameIdentity), set_config(InvalidConfig), add_broadcast(DataTooBig/MalformedPacket) leaves the whole state equal (modulo the user codec's own state and the scratch decode buffer, which is proved cleared before use) and appends nothing to the trace.",
+         "Determinism itself is argued (safe Rust, no ambient nondeterminism; functional postconditions), not proved as a two-run property."),
+ 'C18': ("Verus: per-call fan-out bounds (sent_to_active .. num_indirect_probes), the reply table maps every request kind to a kind that gets no reply (reply_ok), a TurnUndead from a Down-listed sender is answered only if the identity was renewed, attempt_rejoin only with a winning identity.",
+         "Partial: cross-instance termination of gossip-induced chains is not decided."),
+ 'C19': ("Verus: all_foreign (no appended datagram goes to an identity with the own address) for every function that chooses a destination: gossip, announce_to_down, change_identity, attempt_rejoin, handle_self_update, leave_cluster, apply_many, broadcast, probe_random_member, handle_timer (all arms), handle_data replies; from own_down + choosers returning only active records.",
+         "announce(dst) and relays to a peer-named target are exempt per the statement."),
 }
 NA = {
  'C02': 'multi-instance schedules with a timing assumption and a convergence bound: no per-call contract or data-structure invariant expresses it (DESIGN.md 6/8); ingredients proved under C09,C12,C13,C14',
@@ -22,7 +41,7 @@ NA = {
  'C05': 'partition shapes x heal instants x schedules, convergence (DESIGN.md 8); per-instance reactions under C10,C17,C18,C01',
 }
 PENDING = {p: 'contracts for this property are not built yet in this revision (work in progress; DESIGN.md 6 has the plan)' for p in
-           ['C06','C07','C10','C12','C13','C15','C16','C17','C18','C19','C20']}
+           ['C20']}
 def main():
     checks=[]
     for pid,(text,note) in sorted(CLAIMS.items()):
